@@ -1,5 +1,7 @@
 import PrysmVerif.Generated.C03
 import PrysmVerif.Lemmas.C03Fourier
+import PrysmVerif.Lemmas.C03Rotation
+import PrysmVerif.Lemmas.C05Instance
 import Mathlib.Tactic.NormNum
 /-!
 # C03 — output sampling and coordinates are physically correct
@@ -95,6 +97,11 @@ theorem ffsQ_axes (s0 s1 M0 M1 dx z lam dxo sh0 sh1 : K) (h0 : s0 ≠ 0) (h1 : s
     1 / (s1 * ffsQ1 s0 s1 M0 M1 dx z lam dxo sh0 sh1) = dx * dxo / (lam * z) := by
   constructor <;> simp only [ffsQ0, ffsQ1, qForSampling, Model.C03.qForSampling, Model.C03.pupilToPsf, Model.C03.psfToPupil, Model.C03.axisQ, Model.C03.shiftSamples, Model.C03.focusDx] <;> field_simp
 
+/-- non-vacuity (exact rationals): a 9 × 12 pupil gets two different `Q`s -/
+example : qForSampling (8 * (1/2 : ℚ)) 100 (1/2) (25/4) = 2 := by norm_num [qForSampling, Model.C03.qForSampling, Model.C03.pupilToPsf, Model.C03.psfToPupil, Model.C03.axisQ, Model.C03.shiftSamples, Model.C03.focusDx]
+example : ffsQ1 (9 : ℚ) 12 15 22 (1/2) 100 (1/2) 5 0 0 = 5 / 3 ∧ ffsQ0 (9 : ℚ) 12 15 22 (1/2) 100 (1/2) 5 0 0 = 20 / 9 := by
+  constructor <;> norm_num [ffsQ0, ffsQ1, qForSampling, Model.C03.qForSampling, Model.C03.pupilToPsf, Model.C03.psfToPupil, Model.C03.axisQ, Model.C03.shiftSamples, Model.C03.focusDx]
+
 /-- un-focusing: the same, per axis of the focal-plane array (`dx` = focal spacing, `dxo` = pupil spacing) -/
 theorem ufsQ_axes (s0 s1 M0 M1 dx z lam dxo sh0 sh1 : K) (h0 : s0 ≠ 0) (h1 : s1 ≠ 0) (hdx : dx ≠ 0) (hz : z ≠ 0)
     (hl : lam ≠ 0) (hd : dxo ≠ 0) :
@@ -129,6 +136,10 @@ theorem fft_dx_axis0_iff_square (dx N0 N1 lam efl : K) (hdx : dx ≠ 0) (hN0 : N
     field_simp at h
     exact h.symm
   · intro h; subst h; field_simp
+
+/-- non-vacuity: on a 9 × 12 padded array the reported spacing is NOT the spacing of axis 0 -/
+example : (1 : ℚ) / 9 ≠ (1/2) * focusDx (1/2 : ℚ) 9 12 (1/2) 100 / ((1/2) * 100) := by
+  simp only [focusDx, pupilToPsf, Model.C03.qForSampling, Model.C03.pupilToPsf, Model.C03.psfToPupil, Model.C03.axisQ, Model.C03.shiftSamples, Model.C03.focusDx]; norm_num
 
 end scalar
 
@@ -282,13 +293,31 @@ theorem fft_route_samples_F (e : R → V) (n N : Nat) (hnN : n ≤ N) (dx lam ef
   simp only [Generated.C03.focusDx, Generated.C03.pupilToPsf, Model.C03.qForSampling, Model.C03.pupilToPsf, Model.C03.psfToPupil, Model.C03.axisQ, Model.C03.shiftSamples, Model.C03.focusDx]
   field_simp
 
-end fourier
+/-- what the FFT route computes on one axis — `fftshift(fft(ifftshift(·)))` with NumPy's index rotations, `fft` being the
+plain DFT sum — IS the centred DFT, for every length (odd or even) -/
+theorem fft_route_is_centred_dft (e : R → V) (he : ∀ a b, e (a + b) = e a * e b) (hint : ∀ z : ℤ, e (z : R) = 1)
+    [CharZero R] (N : Nat) (x : Nat → V) (l : Nat) (hl : l < N) : fftRoute1 e N x l = cdft1 e N x l :=
+  fftRoute1_eq_cdft1 e he hint N x l hl
 
-/-! ## non-vacuity: concrete instances of the hypotheses (exact rational arithmetic) -/
-example : qForSampling (8 * (1/2 : ℚ)) 100 (1/2) (25/4) = 2 := by norm_num [qForSampling, Model.C03.qForSampling, Model.C03.pupilToPsf, Model.C03.psfToPupil, Model.C03.axisQ, Model.C03.shiftSamples, Model.C03.focusDx]
-example : ffsQ1 (9 : ℚ) 12 15 22 (1/2) 100 (1/2) 5 0 0 = 5 / 3 ∧ ffsQ0 (9 : ℚ) 12 15 22 (1/2) 100 (1/2) 5 0 0 = 20 / 9 := by
-  constructor <;> norm_num [ffsQ0, ffsQ1, qForSampling, Model.C03.qForSampling, Model.C03.pupilToPsf, Model.C03.psfToPupil, Model.C03.axisQ, Model.C03.shiftSamples, Model.C03.focusDx]
-example : (1 : ℚ) / 9 ≠ (1/2) * focusDx (1/2 : ℚ) 9 12 (1/2) 100 / ((1/2) * 100) := by
-  simp only [focusDx, pupilToPsf, Model.C03.qForSampling, Model.C03.pupilToPsf, Model.C03.psfToPupil, Model.C03.axisQ, Model.C03.shiftSamples, Model.C03.focusDx]; norm_num
+/-- FFT route end to end on one axis: pad (origin on origin), rotate, DFT, rotate back — element `l` is the physical
+integral at `(l - N//2)·dx_rep`, `dx_rep` the spacing reported from this axis's padded length -/
+theorem fft_route_end_to_end (e : R → V) (he : ∀ a b, e (a + b) = e a * e b) (hint : ∀ z : ℤ, e (z : R) = 1)
+    [CharZero R] (n N : Nat) (hnN : n ≤ N) (dx lam efl N0 : R) (f : Nat → V) (l : Nat) (hl : l < N)
+    (hdx : dx ≠ 0) (hlam : lam ≠ 0) (hf : efl ≠ 0) :
+    fftRoute1 e N (padded n N f) l = F1 e n dx (1 / (lam * efl)) f (coord N l * focusDx dx N0 (N : R) lam efl) := by
+  rw [fftRoute1_eq_cdft1 e he hint N _ l hl]
+  exact fft_route_samples_F e n N hnN dx lam efl N0 f l (by exact_mod_cast (show N ≠ 0 by omega)) hdx hlam hf
+
+/-- non-vacuity: `e t = exp(-2πi t)` on `ℝ → ℂ` satisfies every hypothesis made on the kernel above -/
+example : (∀ a b, eReal (a + b) = eReal a * eReal b) ∧ eReal 0 = 1 ∧ (∀ z : ℤ, eReal (z : ℝ) = 1) :=
+  ⟨eReal_add, eReal_zero, eReal_int⟩
+
+/-- the tilt theorem for the actual kernel: `k` waves of tilt move the focal field of ANY pupil by `k λ f / D` -/
+theorem tilt_shift_real (n : Nat) (hn : 0 < n) (dx lam z k : ℝ) (f : Nat → ℂ) (ξ : ℝ) (hdx : dx ≠ 0) (hl : lam ≠ 0) (hz : z ≠ 0) :
+    F1 eReal n dx (1 / (lam * z)) (fun i => f i * tilt eReal n k i) ξ
+      = F1 eReal n dx (1 / (lam * z)) f (ξ - k * lam * z / ((n : ℝ) * dx)) :=
+  tilt_shift eReal eReal_add n dx lam z k f ξ (by exact_mod_cast hn.ne') hdx hl hz
+
+end fourier
 
 end C03
